@@ -71,6 +71,7 @@ struct StubCfg {
   double lo[MAXV], hi[MAXV]; bool hasC[MAXV];
   bool hasHid[MAXV]; double hlo[MAXV], hhi[MAXV];
   double x0[MAXV];
+  bool lazyEnable = false;     // peer variant: enabling analytic derivatives only sets the flag (the library's own PolynomialFunction1Der1 idiom); they are recomputed at the next parameter change
 };
 
 std::string vname(int i) { return "p" + std::to_string(i); }
@@ -90,6 +91,7 @@ public:
   long oneShotAt = -1, probeCalls = 0; bool oneShotFired = false;
   double fval = 0;
   bool d1On = false, d2On = false;
+  bool hasD1 = false, hasD2 = false;     // which analytic interfaces this peer variant offers
   double c1[MAXV]; double c2[MAXV][MAXV];
 
   explicit SimPoly0(const StubCfg& c) : bpp::AbstractParametrizable(""), cfg(c) {
@@ -152,8 +154,9 @@ public:
   bool matchParametersValues(const bpp::ParameterList& pl) override { bool r = false; guarded(K_MATCH, &pl, nullptr, 0, [&] { r = bpp::AbstractParametrizable::matchParametersValues(pl); }); return r; }
 
   // analytic interfaces (only reachable through SimPoly1 / SimPoly2)
-  void en1(bool yn) { bool was = d1On; d1On = yn; if (yn && !was) { double x[MAXV]; point(x); computeD1(x); } }
-  void en2(bool yn) { bool was = d2On; d2On = yn; if (yn && !was) { double x[MAXV]; point(x); computeD2(x); } }
+  void en1(bool yn, bool force = false) { bool was = d1On; d1On = yn; if (yn && !was && (force || !cfg.lazyEnable)) { double x[MAXV]; point(x); computeD1(x); } }
+  void en2(bool yn, bool force = false) { bool was = d2On; d2On = yn; if (yn && !was && (force || !cfg.lazyEnable)) { double x[MAXV]; point(x); computeD2(x); } }
+  void rearm(bool on1, bool on2) { d1On = false; d2On = false; if (hasD1) en1(on1, true); if (hasD2) en2(on2, true); }
   double get1(const std::string& v) const { if (!d1On) throw bpp::Exception("SimPolynomial: first order derivatives are not computed"); return c1[idx(v)]; }
   double get2(const std::string& v, const std::string& u) const { if (!d2On) throw bpp::Exception("SimPolynomial: second order derivatives are not computed"); return c2[idx(v)][idx(u)]; }
 };
@@ -163,7 +166,7 @@ class SimPoly1 :
   public virtual bpp::FirstOrderDerivable
 {
 public:
-  explicit SimPoly1(const StubCfg& c) : SimPoly0(c) { en1(true); }
+  explicit SimPoly1(const StubCfg& c) : SimPoly0(c) { hasD1 = true; en1(true, true); }
   SimPoly1* clone() const override { return new SimPoly1(*this); }
   void enableFirstOrderDerivatives(bool yn) override { en1(yn); }
   bool enableFirstOrderDerivatives() const override { return d1On; }
@@ -175,7 +178,7 @@ class SimPoly2 :
   public virtual bpp::SecondOrderDerivable
 {
 public:
-  explicit SimPoly2(const StubCfg& c) : SimPoly1(c) { en2(true); }
+  explicit SimPoly2(const StubCfg& c) : SimPoly1(c) { hasD2 = true; en2(true, true); }
   SimPoly2* clone() const override { return new SimPoly2(*this); }
   void enableSecondOrderDerivatives(bool yn) override { en2(yn); }
   bool enableSecondOrderDerivatives() const override { return d2On; }
@@ -229,6 +232,7 @@ public:
       sc.poly.t.push_back(t);
     }
     apoly = sc.poly.absP();
+    sc.lazyEnable = p.geti("lazyen") != 0;
     for (int i = 0; i < MAXV; ++i) { sc.lo[i] = -INF; sc.hi[i] = INF; sc.hasC[i] = false; sc.hasHid[i] = false; sc.hlo[i] = -INF; sc.hhi[i] = INF; sc.x0[i] = 0; elo[i] = -INF; ehi[i] = INF; }
     for (int i = 0; i < nv; ++i) {
       std::string si = std::to_string(i);
@@ -477,6 +481,8 @@ public:
                  std::string(ENTRY[entry]) + " raised although every selected variable has a feasible side for its probes: " + what + describe(req));
       // the statement is silent after a raised call: re-synchronise the model from the wrapped function
       f->point(cur); invalidate(); valueFresh = false;
+      // ... including the peer's derivative switches, which the wrapper turns off while probing: the caller re-arms the function after an error
+      f->rearm(d1, d2);
       ctx.probe(crossProbes ? "update-raised-cross-at-limit" : "update-raised-both-sides-infeasible");
       ctx.rejected();
       return;
@@ -729,6 +735,7 @@ public:
     long deg = rng.below(6);
     p.cfg["scheme"] = scheme; p.cfg["nv"] = nv; p.cfg["deg"] = deg;
     p.cfg["iface"] = scheme == 2 ? rng.below(2) : rng.below(3);
+    p.cfg["lazyen"] = rng.below(2);
     p.cfg["xok"] = rng.below(XOK_ONE_IN) == 0; p.cfg["staleok"] = rng.below(STALE_ONE_IN) == 0; p.cfg["xfirst"] = rng.below(2); p.cfg["noneok"] = rng.below(NONE_ONE_IN) == 0;
     long nt = rng.range(1, 8); p.cfg["nt"] = nt;
     bool mixed = rng.chance(0.7);       // favour terms that couple variables
